@@ -1105,12 +1105,9 @@ class VM:
 
         if isinstance(obj, JSArray):
             # Array index access
-            try:
-                idx = int(key_str)
-                if idx >= 0:
-                    return obj.get_index(idx)
-            except ValueError:
-                pass
+            idx = self._array_index(key_str)
+            if idx is not None:
+                return obj.get_index(idx)
             if key_str == "length":
                 return obj.length
             # Built-in array methods
@@ -1206,12 +1203,9 @@ class VM:
 
         if isinstance(obj, str):
             # String character access
-            try:
-                idx = int(key_str)
-                if 0 <= idx < len(obj):
-                    return obj[idx]
-            except ValueError:
-                pass
+            idx = self._array_index(key_str)
+            if idx is not None and idx < len(obj):
+                return obj[idx]
             if key_str == "length":
                 return len(obj)
             # String methods
@@ -2308,11 +2302,8 @@ class VM:
                 return
             # Strict array mode: reject non-integer indices
             # Valid indices are integer strings in range [0, 2^32-2]
-            try:
-                idx = int(key_str)
-            except ValueError:
-                idx = -1
-            if idx >= 0 and str(idx) == key_str:
+            idx = self._array_index(key_str)
+            if idx is not None:
                 try:
                     obj.set_index(idx, value)
                 except IndexError:
@@ -2356,6 +2347,15 @@ class VM:
             raise JSTypeError(
                 f"Cannot create property '{key_str}' on {js_typeof(obj)} '{to_string(obj)}'"
             )
+
+    @staticmethod
+    def _array_index(key: str) -> Optional[int]:
+        """The array index a property key spells ("0", "17"), or None: keys like "01", " 1",
+        "+1", "1_0" or other scripts' digits are ordinary property names."""
+        if key.isascii() and key.isdigit() and len(key) <= 10:
+            if key == "0" or key[0] != "0":
+                return int(key)
+        return None
 
     @staticmethod
     def _canonical_numeric_index(key: str):
@@ -2403,8 +2403,9 @@ class VM:
             if isinstance(current, (JSArray, JSTypedArray)):
                 if key_str == "length":
                     return True
-                if key_str.isdigit() and str(int(key_str)) == key_str:
-                    if int(key_str) < current.length:
+                idx = self._array_index(key_str)
+                if idx is not None:
+                    if idx < current.length:
                         return True
             current = getattr(current, "_prototype", None)
         # Methods the engine provides outside the prototype objects
